@@ -165,5 +165,20 @@ CHECKS = {
           "and is unexercised. Two notation limits listed as findings (empty primitive array, all-None object).",
   'technique': 'Coq proof (permutation invariance via sorted-array refinement) over a Gallina model + source-token translator (flatkeys) + differential correspondence through WsgiApplication + e2e oracle',
  },
+ 'C15': {
+  'text': "For every history of derivation and evolution operations (primitive customization, customize with "
+          "child_attrs/child_attrs_all/child_attrs_noexc, Array/Iterable, Mandatory, subclassing, append_field/insert_field) "
+          "every previously existing class that does not refer to an evolved class keeps its record, snapshot, resolved "
+          "attributes, flat field table and validation verdicts; the derived class carries exactly the requested constraints "
+          "over the original's; added fields reach every customized variant; field order is declaration order, parents first.",
+  'design_ref': 'DESIGN.md section 6 (C15)',
+  'note': TB + "Proved over a class-store model of the repaired derivation code (5 fixes: Mandatory(Array) aliasing, inherited "
+          "_variants registry, Decimal max_str_len, caller dict mutation, re-derived __extends__) as an invariant over "
+          "operation histories; tied per run by snapshot correspondence after every step, an ast translator of 17 source "
+          "tokens (C15_source_shape, a syntactic tripwire) and a direct oracle; schema/protocol output order and hash-seed "
+          "independence are observed by the oracle, not proved. Outside the modelled language: parser/sanitizer/pk/fk/"
+          "values_dict/prot/store_as, Attributes.order, SelfReference/XmlData/XmlAttribute fields, nested child_attrs.",
+  'technique': 'Coq proof (frame invariant by induction over operation histories) over a class-store model + snapshot correspondence + fail-closed ast translator (derive) + direct oracle',
+ },
 }
 NOT_APPLICABLE = {}
